@@ -176,7 +176,23 @@ func (d *astDumper) expr(e ast.Expr, c fctx) string {
 	case *ast.Ident:
 		return fmt.Sprintf("GIdent %s %s %s", coqStr(x.Name), coqStr(d.kind(x)), coqStr(d.cls(x, c.recv, c.params)))
 	case *ast.SelectorExpr:
-		return fmt.Sprintf("GSel (%s) %s %s", d.expr(x.X, c), coqStr(x.Sel.Name), coqStr(d.kind(x)))
+		kind := d.kind(x)
+		if d.info != nil {
+			if sel, ok := d.info.Selections[x]; ok && sel.Kind() == types.MethodVal {
+				kind = "mval"
+				if fn, ok := sel.Obj().(*types.Func); ok {
+					if sig, ok := fn.Type().(*types.Signature); ok && sig.Recv() != nil {
+						if _, isPtr := sig.Recv().Type().(*types.Pointer); isPtr {
+							kind = "mptr"
+						}
+						if _, isIface := sig.Recv().Type().Underlying().(*types.Interface); isIface {
+							kind = "miface"
+						}
+					}
+				}
+			}
+		}
+		return fmt.Sprintf("GSel (%s) %s %s", d.expr(x.X, c), coqStr(x.Sel.Name), coqStr(kind))
 	case *ast.CallExpr:
 		return fmt.Sprintf("GCall (%s) %s %s %s", d.expr(x.Fun, c), d.exprs(x.Args, c), coqBool(x.Ellipsis.IsValid()), coqStr(d.kind(x)))
 	case *ast.BinaryExpr:
@@ -282,6 +298,9 @@ func (d *astDumper) stmt(s ast.Stmt, c fctx) string {
 			}
 			return fmt.Sprintf("GVarDecl %s %s %s", coqList(names), coqStr(ty), d.exprs(vs.Values, c))
 		}
+		if ok && gd.Tok == token.CONST {
+			return "GBlock []"
+		}
 		return "GOtherS \"decl\""
 	case *ast.IncDecStmt:
 		return fmt.Sprintf("GIncDec (%s) %s", d.expr(x.X, c), coqStr(x.Tok.String()))
@@ -301,6 +320,11 @@ func (d *astDumper) stmt(s ast.Stmt, c fctx) string {
 		return fmt.Sprintf("GSwitch %s %s", coqStr("typeswitch "+d.src(x.Assign)), d.stmts(body, c))
 	case *ast.EmptyStmt:
 		return "GBlock []"
+	case *ast.BranchStmt:
+		if x.Tok == token.BREAK || x.Tok == token.CONTINUE {
+			return "GBlock []"
+		}
+		return "GOtherS " + coqStr("branch "+x.Tok.String())
 	}
 	return "GOtherS " + coqStr(fmt.Sprintf("%T", s))
 }
@@ -352,7 +376,8 @@ func genAst(repo, outDir string) error {
 		}
 		d := &astDumper{fset: fset}
 		// type-check where possible (the adapter packages import modules that the source importer cannot always load)
-		info := &types.Info{Types: map[ast.Expr]types.TypeAndValue{}, Defs: map[*ast.Ident]types.Object{}, Uses: map[*ast.Ident]types.Object{}}
+		info := &types.Info{Types: map[ast.Expr]types.TypeAndValue{}, Defs: map[*ast.Ident]types.Object{}, Uses: map[*ast.Ident]types.Object{},
+			Selections: map[*ast.SelectorExpr]*types.Selection{}}
 		conf := types.Config{Importer: importer.ForCompiler(fset, "source", nil), Error: func(error) {}}
 		if pkg, err := conf.Check(p.importPath, fset, files, info); err == nil && pkg != nil {
 			d.info = info
